@@ -70,6 +70,25 @@ pub fn replay(args: &Args) {
                     let Some(allowed) = index.get(&(mask, cut)) else { continue };
                     let stored: BlockRanges = store.get_stored_header_ranges().await.unwrap();
                     let cutoff = (base + Duration::from_secs(cut)).unwrap();
+                    // the pruner keeps ONE cache for its two windows, each with its own previous answer: a search
+                    // without a previous answer (slow path) on the cache the other searches filled
+                    for mode in [0u8, 2] {
+                        let g2 = catch_find(&mut cache, &store, &stored, &cutoff, None, mode).await;
+                        sum.case("C36", Some(format!("seq-none/{s}/{variant}/{cut}/{mode}")), || json!({"s0": s, "mask": mask, "c": cut, "prev": 0, "mode": mode, "cache": "shared-while-pruning"}));
+                        match g2 {
+                            Err(e) => sum.violation("C36", json!({"s0": s, "mask": mask, "c": cut, "prev": 0, "why": format!("error/panic: {e}"),
+                                        "class": {"kind": "error", "mode": mode, "cache": "shared-while-pruning"}})),
+                            Ok(None) => {}
+                            Ok(Some(r)) => {
+                                let rr = r.unwrap_or(0);
+                                if !allowed.contains(&rr) {
+                                    sum.violation("C36", json!({"s0": s, "mask": mask, "c": cut, "prev": 0, "cache": "shared-while-pruning",
+                                        "why": format!("answer {rr} not among the allowed answers {allowed:?} (stored mask {mask} after removals from {s}, cutoff {cut}, times 2h, no previous answer, one cache across the calls)"),
+                                        "class": {"kind": "wrong-answer", "mode": mode, "cache": "shared-while-pruning"}}));
+                                }
+                            }
+                        }
+                    }
                     let got = catch_find(&mut cache, &store, &stored, &cutoff, prev, 0).await;
                     let key = Some(format!("seq/{s}/{variant}/{cut}"));
                     sum.case("C36", key, || json!({"s0": s, "mask": mask, "c": cut, "prev": prev, "cache": "shared-while-pruning"}));
